@@ -3,6 +3,7 @@
 cd "$(dirname "$0")/.." || exit 2
 while read -r dir ids; do
   [ -z "$dir" ] && continue
+  case "$dir" in /*) ;; *) dir="$PWD/$dir";; esac
   git -C /repo status --porcelain | grep -q . && { echo "/repo not clean"; exit 2; }
   git -C /repo apply "$dir/patch.diff" || { echo "$dir: patch does not apply"; continue; }
   for id in $ids; do
